@@ -8,7 +8,7 @@
 From Coq Require Import List ZArith QArith Qabs Qminmax Bool String Reals Qreals.
 From Interval Require Import Xreal Interval.
 From Gst Require Import lib.QAux lib.LinAlgQ C03.Table C03.IEval C03.Model C03.Spec C03.Valid C03.Witness C03.gen.CovTable
-  C03.Proofs C03.Proofs_basic C03.Proofs_psd C03.Proofs_aniso C03.Proofs_encl C03.Proofs_real C03.Proofs_tri C03.Proofs_exp.
+  C03.Proofs C03.Proofs_basic C03.Proofs_psd C03.Proofs_aniso C03.Proofs_encl C03.Proofs_real C03.Proofs_tri C03.Proofs_exp C03.Proofs_model C03.Proofs_series C03.Proofs_psdR.
 Import ListNotations.
 Local Open Scope Q_scope.
 
@@ -25,8 +25,8 @@ Proof. exact table_entry_ok. Qed.
 Print Assumptions C03_table_ok_partial.
 
 Theorem C03_table_dim : forall e r,
-  In e cov_table -> lookup (ce_name e) ref_table = Some r -> r_known r = true ->
-  ~ In (ce_name e, 1%Z) known_discrepancies -> dim_le (ce_maxdim e) (r_maxdim r) = true.
+  In e cov_table -> lookup (ce_name e) ref_table = Some r ->
+  ~ In (ce_name e, 1%Z) known_discrepancies -> chk_dim e r = true.
 Proof. exact table_dim_ok. Qed.
 Print Assumptions C03_table_dim.
 
@@ -154,9 +154,10 @@ Theorem C03_sqrt_bracket : forall q, 0 <= q ->
 Proof. exact sqrt_bracket_spec. Qed.
 Print Assumptions C03_sqrt_bracket.
 (* the interval evaluator encloses the real closed form, for every real distance inside the bracket *)
-Theorem C03_enclosure : forall type param hlo hhi (h : R) a b,
-  cor_trans type param hlo hhi = Some (a, b) -> (Q2R hlo <= h <= Q2R hhi)%R ->
-  exists v, cor_R type param h = Some v /\ (Q2R a <= v <= Q2R b)%R.
+Theorem C03_enclosure : forall type param ndim field hlo hhi (h : R) a b,
+  0 < field ->
+  cor_trans type param ndim field hlo hhi = Some (a, b) -> (Q2R hlo <= h <= Q2R hhi)%R ->
+  exists v, cor_R type param ndim field h = Some v /\ (Q2R a <= v <= Q2R b)%R.
 Proof. exact cor_trans_encloses. Qed.
 Print Assumptions C03_enclosure.
 
@@ -225,6 +226,67 @@ Theorem C03_psd_exponential_1d : forall n rho, 0 <= rho -> rho <= 1 -> psd n (fu
 Proof. exact psd_exponential_grid. Qed.
 Print Assumptions C03_psd_exponential_1d.
 
+(* ---------------------------------------------------------------------------------------------- PSD, complete proofs over R *)
+(* every finite point set, any n, any points: no citation *)
+Theorem C03_psd_cosinus_1d : forall n (range : R) (t : nat -> R), psdR n (fun i j => corR_cosinus (Rabs (t i - t j) / range)).
+Proof. exact psdR_cosinus_1d. Qed.
+Print Assumptions C03_psd_cosinus_1d.
+(* the Gaussian structure in R^d, every d: p i a = coordinate a of the (anisotropy-transformed, normalised) point i *)
+Theorem C03_psd_gaussian : forall d n (p : nat -> nat -> R), psdR n (fun i j => corR_gaussian (sqrt (dist2R d (p i) (p j)))).
+Proof. exact psdR_gaussian_structure. Qed.
+Print Assumptions C03_psd_gaussian.
+Theorem C03_psdR_closure_limit : forall n (KN : nat -> rmat) (K : rmat),
+  (forall N, psdR n (KN N)) -> (forall i j, (i < n)%nat -> (j < n)%nat -> Lim_seq.is_lim_seq (fun N => KN N i j) (Rbar.Finite (K i j))) -> psdR n K.
+Proof. exact psdR_limit. Qed.
+
+(* ---------------------------------------------------------------------------------------------- PSD, assembling *)
+Theorem C03_psd_lincomb : forall n S (c : fvec) (K : nat -> fmat),
+  (forall s, (s < S)%nat -> 0 <= c s) -> (forall s, (s < S)%nat -> psd n (K s)) -> psd n (fun i j => sumn S (fun s => c s * K s i j)).
+Proof. exact psd_lincomb. Qed.
+Theorem C03_psd_plus_nugget : forall n (s : Q) (H : fmat) K,
+  0 <= s -> (forall i, (i < n)%nat -> H i i == 0) ->
+  (forall i j, (i < n)%nat -> (j < n)%nat -> i <> j -> (1 # 10000000000) <= H i j) ->
+  psd n K -> psd n (fun i j => K i j + s * cor_nugget (H i j)).
+Proof. exact psd_plus_nugget. Qed.
+(* separable model: partial, the second factor is given in factorised form (hypothesis second_factor_gram) *)
+Theorem C03_psd_separable_partial : forall n r (d : fvec) (B : fmat) K1 K2,
+  psd n K1 -> (forall l, (l < r)%nat -> 0 <= d l) ->
+  (forall i j, (i < n)%nat -> (j < n)%nat -> K2 i j == sumn r (fun l => d l * (B i l * B j l))) ->
+  psd n (fun i j => K1 i j * K2 i j).
+Proof. exact psd_separable_partial. Qed.
+(* full strength: any PSD spatial matrix times the exponential structure on a regular time grid *)
+Theorem C03_psd_separable_exponential_time : forall n rho K1 (tau : nat -> nat),
+  0 <= rho -> rho <= 1 -> psd n K1 -> (forall i, (i < n)%nat -> (tau i < n)%nat) ->
+  psd n (fun i j => K1 i j * qpow rho (gdist (tau i) (tau j))).
+Proof. exact psd_separable_exponential_time. Qed.
+Theorem C03_psd_closure_limit : forall n K,
+  (forall eps, 0 < eps -> exists L, psd n L /\ forall i j, (i < n)%nat -> (j < n)%nat -> Qabs (K i j - L i j) <= eps) -> psd n K.
+Proof. exact psd_limit. Qed.
+(* spherical family: partial, hypothesis [intersection_volume] = the matrix is a limit of Gram matrices of indicator
+   functions of balls (Matheron; proved here only for the 1-D member, the triangle structure) *)
+Theorem C03_psd_spherical_partial : forall n K, intersection_volume n K -> psd n K.
+Proof. exact psd_intersection_volume_partial. Qed.
+(* the multivariate model: nvar variables, ncov structures with sills A_s A_s^T and PSD scalar kernels *)
+Theorem C03_model_psd : forall nv n ncov (r : nat) (A : nat -> fmat) (k : nat -> fmat),
+  (forall s, (s < ncov)%nat -> psd n (k s)) ->
+  forall x, 0 <= quadB nv n (fun v i w j => sumn ncov (fun s => sumn r (fun l => A s v l * A s w l) * k s i j)) x.
+Proof. exact model_psd. Qed.
+Print Assumptions C03_model_psd.
+
+(* ---------------------------------------------------------------------------------------------- series, sphere *)
+(* J-Bessel: every partial sum of the series beyond some index lies in the bracket computed by the model *)
+Theorem C03_besselj_bracket : forall nu h2 lo hi, bessel_enc nu h2 = Some (lo, hi) ->
+  0 < nu /\ 0 <= h2 /\ exists K, forall M, (K <= M)%nat -> lo <= bessel_sum nu (h2 / 4) M <= hi.
+Proof. exact bessel_enc_spec. Qed.
+Print Assumptions C03_besselj_bracket.
+Theorem C03_sphere_spectrum_nonneg : forall type param scale n l,
+  0 <= scale -> 0 <= param -> sphere_spectrum type param scale n = Some l -> Forall (fun x => 0 <= x) l.
+Proof. exact sphere_spectrum_nonneg. Qed.
+(* partial: hypothesis [schoenberg] = the Legendre matrices P_k(cos theta_ij) are PSD (cited) *)
+Theorem C03_sphere_psd_partial : forall n N (P : nat -> fmat) (a : list Q),
+  (forall k, (k < N)%nat -> psd n (P k)) -> Forall (fun x => 0 <= x) a -> psd n (fun i j => sumn N (fun k => nth k a 0 * P k i j)).
+Proof. exact sphere_psd_partial. Qed.
+
 (* ---------------------------------------------------------------------------------------------- regression *)
 (* The closed form CovPenta.cpp carried before fix C03_1 (the Reg1D form with scale = range) is not positive
    semi-definite in R^2: seven points with integer mutual distances, range 32 (all normalised distances rational, the
@@ -268,7 +330,7 @@ Proof.
 Qed.
 Example C03_nonvacuous_enclosure :
   (* exp(-1/2) lies in the computed enclosure, which is narrower than 2^-90 *)
-  match cor_trans 1 0 (1#2) (1#2) with
+  match cor_trans 1 0 1 1 (1#2) (1#2) with
   | Some (a, b) => a < b /\ b - a < 1 # (2 ^ 90) /\ (60653 # 100000) < a /\ b < (60654 # 100000)
   | None => False
   end.
@@ -284,6 +346,35 @@ Example C03_nonvacuous_exponential :
   (* rho = 1/2, nodes 0 and 3: correlation 1/8; the hypotheses 0 <= rho <= 1 are satisfiable strictly inside *)
   qpow (1#2) (gdist 0 3) == 1#8 /\ 0 <= 1#2 /\ (1#2) <= 1.
 Proof. vm_compute. repeat split; discriminate. Qed.
+Example C03_nonvacuous_gaussian :
+  (* three points of the plane, not collinear: the matrix has distinct off-diagonal entries *)
+  let p := fun i a : nat => INR (i * i + a * i) in
+  psdR 3 (fun i j => corR_gaussian (sqrt (dist2R 2 (p i) (p j)))) /\ (dist2R 2 (p 0%nat) (p 1%nat) = 5)%R /\ (dist2R 2 (p 1%nat) (p 2%nat) = 25)%R.
+Proof.
+  cbv zeta. split; [apply psdR_gaussian_structure|]. unfold dist2R. cbn -[INR]. cbn. split; Lra.lra.
+Qed.
+Example C03_nonvacuous_cosinus : psdR 3 (fun i j => corR_cosinus (Rabs (INR i - INR j) / 4)).
+Proof. exact (psdR_cosinus_1d 3 4 INR). Qed.
+Example C03_nonvacuous_intersection_volume : intersection_volume 5 (fun i j => cor_triangle (grid_h 3 i j)).
+Proof. apply triangle_intersection_volume. repeat constructor. Qed.
+Example C03_nonvacuous_model :
+  (* two variables, two structures (nugget-like identity and the exponential grid kernel), rank-2 and rank-1 sills *)
+  forall x, 0 <= quadB 2 3 (fun v i w j => sumn 2 (fun s => sumn 2 (fun l => ex_A s v l * ex_A s w l) * ex_k s i j)) x.
+Proof.
+  apply model_psd. intros s Hs. destruct s as [|[|s]]; [| |exfalso; Lia.lia].
+  - apply (psd_ext 3 (fun i j => 1 * delta i j)); [intros; unfold ex_k; cbn; ring|apply (psd_diag 3 (fun _ => 1)); intros; discriminate].
+  - apply (psd_ext 3 (fun i j => qpow (1#2) (gdist i j))); [intros; reflexivity|apply psd_exponential_grid; discriminate].
+Qed.
+Example C03_nonvacuous_besselj :
+  (* J_1(2) = 0.576724807756873...: the bracket of width < 2^-69 *)
+  match bessel_enc 1 4 with
+  | Some (lo, hi) => (57672480775 # 100000000000) < lo /\ hi < (57672480776 # 100000000000) /\ lo < hi
+  | None => False
+  end.
+Proof. vm_compute. repeat split; reflexivity. Qed.
+Example C03_nonvacuous_spectrum :
+  sphere_spectrum 29 (3#2) 1 3 = Some [16#67; 24#67; 18#67; 9#67] /\ sphere_spectrum 30 1 1 5 = Some [0; 64#77; 0; 4#33; 0; 1#21].
+Proof. vm_compute. split; reflexivity. Qed.
 Example C03_nonvacuous_triangle :
   (* 4 nodes, range = 3 spacings: correlations 1, 2/3, 1/3, 0 *)
   map (fun j => Qred (cor_triangle (grid_h 3 0 j))) [0; 1; 2; 3]%nat = [1; 2#3; 1#3; 0].
